@@ -13,9 +13,10 @@ import Fbr.Persist
 import Fbr.Lemmas.VfsInv
 import Fbr.Lemmas.VfsMap
 import Fbr.Lemmas.VfsRoute
+import Fbr.Lemmas.VfsNoPanic
 
 namespace Fbr.Thm.C14
-open Fbr.Vfs Fbr.Persist Fbr.Lemmas.VfsInv Fbr.Lemmas.VfsMap Fbr.Lemmas.VfsRoute
+open Fbr.Vfs Fbr.Persist Fbr.Lemmas.VfsInv Fbr.Lemmas.VfsMap Fbr.Lemmas.VfsRoute Fbr.Lemmas.VfsNoPanic
 
 /-! ### arithmetic of `remap_id` -/
 
@@ -56,6 +57,20 @@ theorem wrapping_remap_not_inverse_counterexample :
   have := h 1000 0 4294967000 65536 (by decide) (by decide)
   revert this
   decide
+
+/-- with every configured mapping inside the guard and `u32` ids in the request and in the
+    backend's answer, no request overflows the id arithmetic (or panics otherwise) -/
+theorem request_never_overflows_under_guard (s : State) (hinv : Inv s) (hg : MapsGuarded s) (r : Req)
+    (hids : r.uid < U32 ∧ r.gid < U32 ∧ r.setUid < U32 ∧ r.setGid < U32) (hans : AnsOk r.ans) :
+    ∃ res calls, s.handle r = some (res, calls) ∧ res ≠ .panic :=
+  handle_no_panic hinv hg r hids hans
+
+/-- ... and the guard is necessary at this level too: a mapping beyond it makes a plain GETATTR
+    panic (overflow checks on) -/
+theorem request_overflows_beyond_guard_counterexample :
+    ∃ (s : State) (r : Req), Inv s ∧ r.uid < U32 ∧ r.gid < U32 ∧ s.handle r = none := by
+  refine ⟨State.new { Opts.default with idMapping := (4294967000, 0, 65536) } false,
+    { op := .getattr, uid := 1000, gid := 0, ino := 1 }, inv_new _ _, by decide, by decide, by decide⟩
 
 /-! ### the mapping in force for a mount -/
 
